@@ -1083,7 +1083,12 @@ func (z *Decimal) SetFloat(x *big.Float) *Decimal {
 	fprec := f.MinPrec()
 	f.SetMantExp(f, int(fprec))
 	i, _ := f.Int(nil)
+	// the integer mantissa must not be rounded before it is scaled by the
+	// power of two: let SetInt pick a precision that holds it exactly
+	prec := z.prec
+	z.prec = 0
 	z.SetInt(i)
+	z.prec = prec
 	exp2 -= int64(fprec)
 	if exp2 != 0 {
 		// multiply / divide by 2**exp with increased precision
